@@ -990,7 +990,8 @@ def check(prop, tier, seed):
     }
     if d['timed_out_units']:
         cov['explanation'] += '; %d work units hit the time budget: their subtrees are only partly explored' % d['timed_out_units']
-    assumptions = ['edge-triggered readiness contract: a batch is announced once; arrivals after a device returned Busy are announced at the next poll',
+    assumptions = ['edge-triggered readiness contract: a batch is announced once; arrivals after a device returned Busy are announced at the next poll; '
+                   'a device may also be announced although its reader then finds nothing to report (spec timer-noise: records the readers skip)',
                    'poll returns TimedOut either spuriously while no time-out was requested, or after at least the requested time',
                    'events of keyboard and tablet devices are ordered by the order in which the loop reads them',
                    'native replays use a scripted driver and the real clock (tolerance 12 ms)']
